@@ -224,6 +224,40 @@ def check_graph(ctx, case, work, stats=None):
             problems.append((None, "property", "KF-09"))
             continue
         problems.append((f"node f{i} on {v!r}: got {got}, a function that re-enters itself gives {exp}\n{src}", "property", None))
+    # a late registration on a function already in use (a node nothing derives from, hence not locked): a new
+    # non-recursive method for one of the leaf types; recursion from the inherited methods must reach it
+    leafs = [i for i in range(len(nodes)) if not any(i in nd["parents"] for nd in nodes)]
+    if leafs and case.get("late") is not None:
+        L = leafs[case["late"] % len(leafs)]
+        t = ["int", "str"][case["late"] % 2]
+        late_src = f"def _(x: {t}):\n    return ('leaf', {L}, '{t}', x)\n"
+        try:
+            lg = dict(g)
+            exec(compile(late_src, f"<c08-late-{_h([src, L, t])}>", "exec"), lg)
+            g[f"f{L}"].register(lg["_"])
+            registered = True
+        except Exception as e:  # noqa
+            registered = False
+        if registered:
+            nodes2 = [dict(nd, methods=[m for m in nd["methods"] if not (j == L and m["type"] == t)] + ([{"type": t, "how": "leaf"}] if j == L else []))
+                      for j, nd in enumerate(nodes)]
+            memo2 = {}
+            for (i, vj) in case["calls"]:
+                if i != L:
+                    continue
+                v = from_json(vj)
+                got = call_node(g, L, v)
+                try:
+                    exp = ["value", to_json(ref_eval(nodes2, L, v, memo2))]
+                except NoMethod:
+                    exp = ["TypeError", None]
+                if stats is not None:
+                    stats["evaluations"] += 1
+                    stats["calls_after_late_registration"] += 1
+                ok = got[0] == exp[0] and (exp[0] != "value" or got[1] == exp[1])
+                if not ok and not (uses_kw(nodes2, L, v, memo2) and got[0] == "TypeError"):
+                    problems.append((f"after registering a {t} method on f{L} (already in use): node f{L} on {v!r}: got {got}, a function that re-enters itself gives {exp}\n{src}\n{late_src}", "property", None))
+                    break
     # the adapted methods name only their own function's table (what the model's rewriting for that id produces)
     for i in range(len(nodes)):
         ov = getattr(g[f"f{i}"], "__ovld__", g[f"f{i}"])
@@ -252,7 +286,7 @@ def gen_case(rng, allow_kw=True):
         for i in order:          # children and parents alternately, twice
             for _ in range(2):
                 calls.append([i, to_json(gen_value(rng, rng.choice([1, 2, 2, 3])))])
-    return {"nodes": nodes, "calls": calls}
+    return {"nodes": nodes, "calls": calls, "late": rng.randrange(8)}
 
 
 # ---------------------------------------------------------------- model tie: rewriting of the recursive methods per node id
@@ -301,7 +335,7 @@ def run(ctx):
     warnings.simplefilter("ignore")
     stats = {"evaluations": 0, "calls": 0, "distinct": set(), "traces_validated": 0, "depth_hist": collections.Counter(),
              "outcomes": collections.Counter(), "graphs": 0, "kinds": collections.Counter(), "hows": collections.Counter(),
-             "adapted_methods_checked": 0, "model_tie": 0, "fan_in_2": 0, "depth_ge_2": 0}
+             "adapted_methods_checked": 0, "model_tie": 0, "fan_in_2": 0, "depth_ge_2": 0, "calls_after_late_registration": 0}
     samples = []
     work = tempfile.mkdtemp(prefix="c08_")
     try:
@@ -335,7 +369,7 @@ def run(ctx):
             "samples": samples, "graphs": stats["graphs"], "graphs_with_mixin_fan_in": stats["fan_in_2"], "graphs_with_derivation_depth_ge_2": stats["depth_ge_2"],
             "node_kinds": dict(stats["kinds"]), "method_kinds": dict(stats["hows"]), "calls": stats["calls"],
             "input_depth_histogram": {str(k): v for k, v in sorted(stats["depth_hist"].items())}, "call_outcomes": dict(stats["outcomes"]),
-            "adapted_methods_checked_for_own_table": stats["adapted_methods_checked"], "model_tie_rewritings": stats["model_tie"],
+            "adapted_methods_checked_for_own_table": stats["adapted_methods_checked"], "calls_after_a_late_registration": stats["calls_after_late_registration"], "model_tie_rewritings": stats["model_tie"],
             "traces_validated_against_impl": stats["traces_validated"]}
 
 
